@@ -189,3 +189,36 @@ Example C14_dag_run :
   tr_starts nm_bad (trace s) = 2 /\ get nm_bad (fail_nr s) = 2 /\
   existsb (fun e => match e with EvObs (OBool true) 0 => true | _ => false end) (trace s) = true.
 Proof. vm_compute. repeat split; reflexivity. Qed.
+
+(* ------------------------------------------------------------------ from-import binds the wrong value *)
+
+Definition nm_pkg : name := [112;107;103]%N.
+Definition nm_pkg_b : name := [112;107;103;47;98]%N.
+Definition nm_x1 : name := [120;49]%N.
+Definition nm_u : name := [117]%N.
+Definition nm_v : name := [118]%N.
+Definition nm_w : name := [119]%N.
+(* pkg.risor: x1 = 5      pkg/b.risor: x0 = 50
+   main: from pkg import b as w ; from pkg import (x1 as u, b as v) ; obs(w) ; obs(v) *)
+Definition fb_tree : tree :=
+  [(nm_pkg, ext_risor, MBody [ASet nm_x1 5%Z]); (nm_pkg_b, ext_risor, MBody [ASet nm_x0 50%Z])].
+Definition fb_main : list action :=
+  [AFrom [nm_pkg] [(nm_b, Some nm_w)]; AFrom [nm_pkg] [(nm_x1, Some nm_u); (nm_b, Some nm_v)];
+   AObs (EPath [nm_w]); AObs (EPath [nm_v])].
+Definition fb_rank : list (name * nat) := [(nm_pkg, 0); (nm_pkg_b, 0)].
+
+(* In an acyclic tree, with no failing body and every body run exactly once, the SAME name imported from the
+   SAME package is a module in a one-name statement and the leftover of another module's body (here 0) in a
+   several-name statement: importModule hands the value a module body left on the operand stack to the
+   importing frame, and the stores of the from-import pop it instead of the imported module. *)
+Theorem C14_refuted_from_binding : exists (T : tree) main s,
+  tree_accepted T = true /\ forallb action_accepted main = true /\ tree_ranked (rank_of fb_rank) T = true /\
+  run_main 100 T default_exts main = (OK, s) /\ fuzzy s = false /\ fail_nr s = [] /\ fail_r s = [] /\
+  existsb (fun e => match e with EvObs (OMod _ _) 0 => true | _ => false end) (trace s) = true /\
+  existsb (fun e => match e with EvObs (OInt 0) 0 => true | _ => false end) (trace s) = true.
+Proof.
+  exists fb_tree, fb_main, (snd (run_main 100 fb_tree default_exts fb_main)).
+  split; [vm_compute; reflexivity|]. split; [vm_compute; reflexivity|]. split; [vm_compute; reflexivity|].
+  split; [vm_compute; reflexivity|]. split; [vm_compute; reflexivity|]. split; [vm_compute; reflexivity|].
+  split; [vm_compute; reflexivity|]. split; vm_compute; reflexivity.
+Qed.
